@@ -11,9 +11,20 @@ VARIABLE l
 
 KnownIds(ds) == \A i \in 1..Len(ds) : \E k \in 1..Len(IdOrder) : IdOrder[k] = ds[i].id
 
+(* a declaration list taken from a real generator: its IDs are arbitrary strings, rec.ids lists the distinct ones in
+   Go string order.  Real lists do carry different contents under one ID (the Dart helpers of []Label and []string
+   share the ID listString): as for the enumerated lists, any content supplied for the ID may then be the one kept. *)
+RealVerdict(rec) ==
+    LET ds == rec.input  ord == rec.ids IN
+    IF \E i \in 1..Len(ds) : ~\E k \in 1..Len(ord) : ord[k] = ds[i].id THEN [case |-> rec.case, ok |-> FALSE, why |-> "harness: id outside the supplied order"]
+    ELSE IF rec.output \in AllowedTextsIn(ord, ds)
+         THEN [case |-> rec.case, ok |-> TRUE, why |-> ""]
+         ELSE [case |-> rec.case, ok |-> FALSE, why |-> "output is not an allowed text (each id once, priority group first, increasing ids)"]
+
 Verdict(rec) ==
     LET ds == rec.input IN
-    IF ~KnownIds(ds) THEN [case |-> rec.case, ok |-> FALSE, why |-> "harness: id outside IdOrder"]
+    IF "ids" \in DOMAIN rec THEN RealVerdict(rec)
+    ELSE IF ~KnownIds(ds) THEN [case |-> rec.case, ok |-> FALSE, why |-> "harness: id outside IdOrder"]
     ELSE IF EqualIdsEqualContent(ds)
          THEN IF \A t \in AllowedTexts(ds) : rec.output = t
               THEN [case |-> rec.case, ok |-> TRUE, why |-> ""]
